@@ -451,6 +451,12 @@ class SimulatorBackend(LocalBackend):
         self._time_keeper.advance_to(time_stop + 1e-3)
         # Process events up to and including ``StopEvent``
         self._process_events_until_now()
+        # Results which arrived after the decision to stop or pause the trial
+        # was taken, are not delivered (also not once the trial is resumed).
+        # Just as in ``fetch_status_results``, they are counted as seen
+        result_list = self._next_results_to_fetch.pop(trial_id, None)
+        if result_list is not None:
+            self._last_metric_seen_index[trial_id] += len(result_list)
         time_complete = (
             self._time_keeper.time() + self.simulator_config.delay_complete_after_stop
         )
